@@ -199,6 +199,13 @@ func (b *Bank) pick(id uint64, r *model.Rng) *model.StructDef {
 // designed: one of the hand-written shapes of the corpus (the generated ones are called M<n> / R<n>).
 func designed(s *model.StructDef) bool {
 	n := s.Name
+	for _, bulk := range []string{"Chain", "Pub"} {
+		// families of many near-identical definitions (a chain of forty, twelve publish-order clusters) serve the
+		// schedule worlds; as focus candidates of the history worlds they would only thin out the others
+		if len(n) > len(bulk) && n[:len(bulk)] == bulk {
+			return false
+		}
+	}
 	if len(n) >= 2 && (n[0] == 'M' || n[0] == 'R') && n[1] >= '0' && n[1] <= '9' {
 		return false
 	}
@@ -367,14 +374,6 @@ func (b *Bank) Op(id uint64) (op OpSpec) {
 			if op.Budget > 1500 {
 				op.Budget = 1500
 			}
-		case roll < 85:
-			op.Kind, op.Type, op.Fault = "dec", b.pick(id, r).Name, pickFault(r)
-			op.Prefill = r.Chance(1, 4)
-		case roll < 88 && b.Prof == "C07":
-			// every prefix and every single-byte corruption of one small message, as predecessors of whatever comes
-			// next: each failing decode leaves through a different exit
-			op.Kind, op.Type = "decenum", b.pick(id, r).Name
-			op.Budget = []int{40, 80, 120, 200}[r.Intn(4)]
 		case roll < 88:
 			op.Kind, op.Type, op.Fault = "dec", b.pick(id, r).Name, pickFault(r)
 			op.Prefill = r.Chance(1, 4)
